@@ -5,7 +5,7 @@
    variables lua_from_lines / lua_to_lines): what the theorems need from the lexer stack is stated as
    explicit hypotheses (sanity re-lex succeeds, the echo writer's last chunk is not empty, echo_stable). *)
 From PV Require Import Base.Prelude Model.P8File Spec.P8Format Spec.P8FileSpec
-  Proofs.P8FileWrite Proofs.P8FileRoundtrip Proofs.P8FileRewrite
+  Proofs.P8FileWrite Proofs.P8FileRoundtrip Proofs.P8FileRewrite Instances.HoldsC03 Proofs.P8FileShortSpec Generated.K_p8file
   Generated.T_lexer Model.Lexer Model.EchoWriter Proofs.LexerChunk Proofs.EchoStable Proofs.P8FileLua Spec.LuaLex Proofs.P8FileLuaDialect.
 
 Section C03.
@@ -88,11 +88,30 @@ Proof.
   intros l'. exact (pad_cart_facts lua lua_to_lines c l' W).
 Qed.
 
+(* ... and that reading is the cart the file DENOTES by the reference semantics of the format (Spec/P8Format.v "short
+   sections", Spec/P8FileSpec.v denoted_p8cart): the instance predicate holds_C03_short - extracted and evaluated by
+   the check on what the real from_file returns for files with short sections - holds of the model's reader, for any
+   code text the Lua object echoes. *)
+Theorem C03_short_holds : forall (c : cart lua) l' code,
+  wf_short lua lua_to_lines c ->
+  holds_C03_short (p8cart_of lua c code) false
+                  (p8cart_of lua (pad_cart lua (norm_cart lua c l')) (supply_nl code)) = true.
+Proof. exact (short_holds lua lua_to_lines). Qed.
+
 (* every well-formed cart is such a cart (so the theorem above contains C03_roundtrip's reading clause) *)
 Theorem C03_whole_is_short : forall (c : cart lua), wf_cart lua lua_to_lines c -> wf_short lua lua_to_lines c.
 Proof. exact (wf_cart_short lua lua_to_lines). Qed.
 
 End C03.
+
+(* the default contents the code fills in (regenerated from the running code on every run: <Section>.empty()._data)
+   are the empty defaults of the format description *)
+Theorem C03_fill_defaults_are_the_formats :
+  p8_pad_sections = [(0, repeat 0 (Z.to_nat 8192)); (2, repeat 0 (Z.to_nat 256)); (1, repeat 0 (Z.to_nat 4096));
+                     (4, spec_default_sfx); (3, spec_default_music); (6, repeat 0 (Z.to_nat 8192))].
+Proof. exact spec_defaults_are_code_defaults. Qed.
+Print Assumptions C03_fill_defaults_are_the_formats.
+Print Assumptions C03_short_holds.
 Print Assumptions C03_short_sections_padded.
 Print Assumptions C03_whole_is_short.
 Print Assumptions C03_roundtrip.
